@@ -338,6 +338,48 @@ func (w *c16World) step(s c16Step) *kvh.Fail {
 			}
 		}
 		w.labels["holder-finished-a-merge-(pending-adoption)"]++
+	case "mergeclose":
+		// the in-process holder's shutdown path calls Close while its own Merge is under way (from the merge.rotated
+		// point: Merge holds no lock there). Whatever Close answers decides who holds the directory: nil - released;
+		// an error - the handle is still open, so the lock must still be held
+		if w.holder < 0 || w.holder >= 2 || w.mmap {
+			return nil
+		}
+		db := w.handles[w.holder]
+		_ = db.Put([]byte("m2"), kvh.GenValue(8, 30))
+		var closeErr error
+		fired := false
+		gIO.SetOnPoint(func(name string, _ []byte) {
+			if name == "merge.rotated" && !fired {
+				fired = true
+				closeErr = c16Reclose(db)
+			}
+		})
+		func() {
+			defer func() { _ = recover() }()
+			_ = db.Merge()
+		}()
+		gIO.SetOnPoint(nil)
+		if !fired {
+			return nil
+		}
+		w.labels["close-called-while-the-holder's-merge-is-running"]++
+		if closeErr == nil {
+			w.stale[w.holder] = db
+			w.handles[w.holder] = nil
+			w.holder = -1
+			w.released = true
+			return w.lockFree()
+		}
+		// refused: still the holder
+		fl := flock.New(filepath.Join(w.dir, ".lock"))
+		ok, err := fl.TryLock()
+		if err == nil && ok {
+			_ = fl.Unlock()
+			_ = fl.Close()
+			return &kvh.Fail{Sig: "refused-close-released-the-lock", Msg: fmt.Sprintf("Close() during the holder's Merge returned %v - the handle is still open - yet an independent flock.TryLock on <dir>/.lock succeeds: the directory can be opened a second time", closeErr)}
+		}
+		_ = fl.Close()
 	case "reclose":
 		// a redundant Close on a handle this actor closed earlier; it must not disturb whoever holds the directory now
 		if w.holder == a {
@@ -712,8 +754,10 @@ func TestC16(t *testing.T) {
 				s.C = "close"
 			case x < 70:
 				s.C = "exit"
-			case x < 76:
+			case x < 74:
 				s.C = "merge"
+			case x < 76:
+				s.C = "mergeclose"
 			case x < 80:
 				s.C = "reclose"
 			case x < 84:
